@@ -21,7 +21,7 @@ for f in K:
         o += "| %s | %s | %s | dependency code (noodles-bcf 0.32, pinned by Cargo.lock; no other version in the offline registry) |\n" % (f['id'], f['property'], f['what'].replace('|', '\\|'))
 R = json.load(open(os.path.join(V, 'seeded', 'RESULTS.json')))
 BEFORE = {}
-for fn in ('RESULTS_round2_before_strengthening.json', 'RESULTS_round3_before_strengthening.json', 'RESULTS_round4_before_strengthening.json', 'RESULTS_round5_before_strengthening.json'):
+for fn in ('RESULTS_round2_before_strengthening.json', 'RESULTS_round3_before_strengthening.json', 'RESULTS_round4_before_strengthening.json', 'RESULTS_round5_before_strengthening.json', 'RESULTS_round6_before_strengthening.json'):
     try:
         BEFORE.update(json.load(open(os.path.join(V, 'seeded', fn)))['results'])
     except OSError:
